@@ -31,6 +31,7 @@ void vf_getevent_(double * tev, int * np, int * npg, double * pm, double * pt);
 void vf_clearevent_();
 void vf_setenrange_(double * e1, double * e2);
 void vf_getenrange_(double * e1, double * e2, double * toall, int * level);
+void vf_gethelpbb_(double * z, double * a, double * e0);
 void vf_seteta_(double * c7);
 void vf_initpar_();
 void vf_genbbsub_(int * i2bbs, int * ichn, int * ilevel, int * modebb, int * istart, int * ier);
